@@ -82,8 +82,15 @@ class Func:
 
 def normalise_tree(tree: ast.AST) -> None:
     """Behaviour-preserving normal form applied to every module before any rule looks at it:
-    `x = EXPR` immediately followed by `return x` (x a plain local) becomes `return EXPR` (keeps the position of EXPR's statement).
+    `x = EXPR` immediately followed by `return x` (x a plain local) becomes `return EXPR` (keeps the position of EXPR's statement);
+    an equality written with the enum member / literal on the left is turned round.
     Rules therefore see the same program whether or not a result is named before being returned."""
+    # `CONSTANT == x` -> `x == CONSTANT` (equalities with an enum member / literal on one side only): one orientation for the rules to read
+    def _constlike(e):
+        return isinstance(e, ast.Constant) or (isinstance(e, ast.Attribute) and isinstance(e.value, ast.Name) and e.value.id[:1].isupper() and e.attr.isupper())
+    for c in ast.walk(tree):
+        if isinstance(c, ast.Compare) and len(c.ops) == 1 and isinstance(c.ops[0], (ast.Eq, ast.NotEq)) and _constlike(c.left) and not _constlike(c.comparators[0]):
+            c.left, c.comparators[0] = c.comparators[0], c.left
     for fn in ast.walk(tree):
         if not isinstance(fn, (ast.FunctionDef, ast.AsyncFunctionDef)):
             continue
